@@ -16,7 +16,7 @@ INV = {
     'C09': ['Inv_C09_NoWritesWhilePaused', 'Inv_C09_StillReports', 'Inv_C09_DeploymentPausedNoRevisionChange', 'Inv_C09_ReleaseExactlyMarked', 'Inv_C09_Propagation', 'Inv_C09_PackagePaused'],
     'C10': ['Inv_C10_Quiescent', 'Inv_C10_SameOutcome', 'Inv_C10_DigestMatchesStore', 'Inv_C19_NoPanic'],
     'C11': ['Inv_C11_PhaseAllOrNothing', 'Inv_C11_Scope', 'Inv_C11_Reported', 'Inv_C11_NoWriteIfViolating', 'Inv_C11_ViolationReported'],
-    'C14': ['Inv_C14_SameAsInline', 'Inv_C14_GC', 'Inv_C14_SliceContent'],
+    'C14': ['Inv_C14_SameAsInline', 'Inv_C14_GC', 'Inv_C14_GCInstant', 'Inv_C14_SliceContent'],
     'C15': ['Inv_C15_SameAsLocal', 'Inv_C15_PhaseObjectFaithful', 'Inv_C15_PhaseObjectLifetime', 'Inv_C15_PausePropagation'],
     'C12': ['Inv_C12_InformerIffOwned', 'Inv_C12_HandlersAttached', 'Inv_C12_ReadUnwatchedFails', 'Inv_C12_MatchesReferenceModel'],
     'C20': ['Inv_C20_OnePullPerImage', 'Inv_C20_ExactlyOneResponse', 'Inv_C20_NoPhantomPull', 'Inv_C20_Private', 'Inv_C20_NoLostWakeup'],
@@ -374,6 +374,8 @@ CHECKS = {
                 invariants=INV['C14'] + INV['C03'] + INV['C04'] + INV['C05'] + INV['C06'] + ['Inv_C09_NoWritesWhilePaused'],
                 jobs=lambda tier, seed: [
                     dict(name='differential-c14', shards=5 if tier == 'quick' else 14, driver=['differential', '-profile', 'c14']),
+                    dict(name='package-collide', shards=4 if tier == 'quick' else 14,
+                         driver=['package-walk', '-profile', 'collide', '-mode', 'api', '-n', '40' if tier == 'quick' else '1500', '-steps', '160', '-seed', str(seed)]),
                     dict(name='package-sliced', shards=4 if tier == 'quick' else 14,
                          driver=['package-walk', '-mode', 'api', '-n', '60' if tier == 'quick' else '2000', '-steps', '160', '-seed', str(seed)]),
                     rnd('sliced-atomic', 'sliced', 'all', 'atomic', 80 if tier == 'quick' else 2000, 90, seed, 4 if tier == 'quick' else 14),
